@@ -159,4 +159,12 @@ PROPS = {
         state_measure="distinct interleavings (scheduled runs) / (number of loggers, wrapped?, total mod 7) (sequential runs)",
         assumptions=["readers of GetLogs receive pointers to entry objects that the ring reuses; the harness copies the messages out immediately and a report that involves the harness's own read of such an entry is not counted (DESIGN.md section 7, C20)"],
     ),
+    "C15": dict(
+        level="exploration", components={"real": ["core/util node codecs (CreateNode, Leaf/Full/Extension Decode, OriginTracker), PNodeDB read paths, dead-node record decoding via PruneBelowVersion", "core/util/wmpt DeserializeNode, Deserialize (path export), VerifyBlockProof, read paths of a reloaded trie"], "stub": MPT_COMPONENTS["stub"] + WMPT_COMPONENTS["stub"]},
+        quick=dict(runs=160000, budget_s=90), thorough=dict(runs=10000000, budget_s=1200),
+        rule="real encodings are produced by the real code (200 seeded base histories: state-trie nodes written to the simulated RocksDB, a dead-node record, weighted-trie nodes in the simulated store, a path export, block proofs); one of them is corrupted by 1-3 operators and consumed through a real read path: (mptnode) CreateNode directly; (mptreader) CreateNode from a faulty io.Reader (short reads, EOF or error after any byte); (mptstore) the simulated disk returns the corrupted bytes for one key while a trie reads every path, iterates, checks missing nodes and PNodeDB iterates; (deadrec) PruneBelowVersion over a corrupted dead-node record; (wmptnode) DeserializeNode; (wmptstore) the store returns corrupted bytes while a reloaded trie serves proofs for every block and a path export; (export) Deserialize; (proof) VerifyBlockProof. Operators: truncation (torn write; 1 in 25 runs of the direct targets tears the encoding at EVERY offset), bit flip, byte set, separator removal, type-byte change (incl. no/several type bits), splice of two real encodings, insertion, region duplication; CBOR-structure level: 17/18/32/300 children, child blobs of 41/50/71/73/39 bytes, short-node value blobs of 0/1/39/41/80 bytes, huge weights, several variants in one node, nil fields, dropped/duplicated/nil/swapped/truncated list elements. Oracle: no panic inside a decoder (recovered with the stack; for directly decoded nodes also none while re-encoding what was accepted: Encode/GetHashBytes/Clone, Serialize/CalcHash/Copy, Root/Weight), return within 10 s. Non-trivial: the bytes actually changed or a reader fault was armed",
+        state_measure="(target, multiset of operator kinds)",
+        assumptions=["panics of trie read paths that happen outside the decoders after a meaningless-but-decodable node was accepted are counted (outside-scope) and not reported: the property speaks about the decoders and about re-encoding what they accept",
+                     "the 10 s bound is a hang detector (the only wall-clock oracle), three orders of magnitude above normal"],
+    ),
 }
